@@ -63,11 +63,8 @@ CLAIMS = {
             'worker i is started on buffer i with stream i (run_multicry); blocks of one buffer are handed out in order (ghost hand-over log).',
             'DESIGN.md 5.7, 13.7', 'as C03.'),
     'C04': ('other',
-            'Termination is a liveness property; what is decided are the safety lemmas it rests on (DESIGN.md 5.8 (1)-(7)): wait loops leave only with the awaited predicate '
-            're-tested under the lock; every state change is followed by notify_all under the same lock (no lost wake-up); a worker is told "no more blocks" only after its '
-            'buffer was retired; turn_iter terminates within `size` steps and returns false iff no buffer is live; the I/O loop has a decreasing measure (input left, live '
-            'buffers); every started worker is joined.  "Each wait eventually returns" under fair scheduling is argued on paper (Appendix C).',
-            'DESIGN.md 5.8, Appendix C, 13.7', 'liveness itself is outside what code contracts decide; no schedule is enumerated.'),
+            'Termination is a liveness property; what is decided are the safety lemmas it rests on (DESIGN.md 5.8 (1)-(7), 13.10 (8)): wait loops leave only with the awaited predicate re-tested under the lock; the state of a buffer is written only while its mutex is held and every change is followed by notify_all (no lost wake-up); a worker is told "no more blocks" only after its buffer was retired; turn_iter terminates within `size` steps and returns false iff no buffer is live; the I/O loop has a decreasing measure (input left, live buffers); every buffer has a worker thread and every started worker is joined.  "Each wait eventually returns" under fair scheduling is argued on paper (Appendix C).',
+            'DESIGN.md 5.8, Appendix C, 13.7, 13.10', 'liveness itself is outside what code contracts decide; no schedule is enumerated.'),
     'C05': ('proof',
             'verify() under contract: verdict 0 iff magic, known mode numbers, length >= 74 and every stored tag byte equals the HMAC (C08) of bytes [48, EOF) under the file\'s '
             'hash mode; execute_decrypt returns the same verdict and writes output only after verdict 0.  Lemma over the contract of verify (two files differing in one header '
